@@ -786,10 +786,12 @@ Proof.
   - cbn [w_obj denote spell_wf follow_ok] in *. destruct y; apply alts_real_any; assumption.
   - cbn [w_obj denote follow_ok] in *. apply alts_name_any. exact Hf.
   - cbn [w_obj denote spell_wf] in *. unfold w_string in *.
-    destruct y as [| | | |[l tc|l tw dl]| | |]; cbn [str_format];
-      try (destruct h; [apply alts_hex_any | apply alts_literal_any; assumption]).
-    + apply alts_literal_any; assumption.
-    + apply alts_hex_any.
+    (* the two explicit string styles first: a failing [apply] of the other lemma makes the unifier unfold
+       [object_alts_c] on both sides, which took 550 s *)
+    destruct y as [| | | |[l tc|l tw dl]| | |]; cbn [str_format].
+    5:{ apply alts_literal_any; assumption. }
+    5:{ apply alts_hex_any. }
+    all: destruct h; [apply alts_hex_any | apply alts_literal_any; assumption].
   - (* array *)
     pose proof (proj1 (spell_wf_arr l y) Hw) as Hwl.
     rewrite (w_arr_text l y rest Hwl) in *. cbn [length] in Hlen.
